@@ -32,8 +32,11 @@ Print Assumptions C12_inv_reachable.
     cassette (live recordings and saved snapshots) and the outcome of every single operation are exactly
     those of the synchronous twin running the same requests in that order; nothing is left anywhere;
     and the request history is per producer exactly its workload in request order - globally a
-    permutation of everything requested (each request exactly once). *)
-Theorem C12_async_refines_sync : forall nrec w s,
+    permutation of everything requested (each request exactly once).
+    Hypothesis [args_stable w]: no caller modifies a dict after passing it to add_metadata (without it the
+    statement is false on the unchanged tree, see C12_argument_alias_refuted) - hence "_partial". *)
+Theorem C12_async_refines_sync_partial : forall nrec w s,
+  args_stable w = true ->
   reach nrec w s -> fl s = Done ->
   map fst (applied s) = enq s /\
   (wstore s, applied s) = run_ops (init_store nrec) (enq s) /\
@@ -42,7 +45,28 @@ Theorem C12_async_refines_sync : forall nrec w s,
   (forall i, issued i (hist s) = nth i w []) /\
   Permutation (map op_of (hist s)) (concat w).
 Proof. exact refines_sync. Qed.
-Print Assumptions C12_async_refines_sync.
+Print Assumptions C12_async_refines_sync_partial.
+
+(** What holds for every workload: exactly once, in enqueue order, nothing left, per-producer order - and the
+    wrapped cassette is that of running the requests one after the other with their arguments as they are
+    when the flusher gets to them ([late_view]). *)
+Theorem C12_async_applies_each_once_in_order : forall nrec w s,
+  reach nrec w s -> fl s = Done ->
+  map fst (applied s) = enq s /\
+  (wstore s, applied s) = run_ops_v late_view (init_store nrec) (enq s) /\
+  buffer s = [] /\ all_done (pending s) = true /\
+  (forall i, issued i (hist s) = nth i w []) /\
+  Permutation (map op_of (hist s)) (concat w).
+Proof. exact refines_late. Qed.
+Print Assumptions C12_async_applies_each_once_in_order.
+
+(** Finding F12 (unchanged tree): A:165 enqueues a closure over the caller's metadata dict itself; a caller that
+    goes on using that dict (d = {..}; rec.add_metadata(d); d[k] = v) gets the later items stored, synchronous
+    recording does not.  Witness: one producer, [add_metadata(d); d[1] = 2; save], flushed after close. *)
+Theorem C12_argument_alias_refuted :
+  exists nrec w s, reach nrec w s /\ fl s = Done /\ wstore s <> sync_apply (init_store nrec) (enq s).
+Proof. exact argument_alias_refuted. Qed.
+Print Assumptions C12_argument_alias_refuted.
 
 (** the interleaving of the flusher and the timer is irrelevant: only the enqueue order matters *)
 Theorem C12_schedule_independent : forall nrec w w' s s',
@@ -53,6 +77,7 @@ Print Assumptions C12_schedule_independent.
 
 (** one caller thread, no request refused at the caller: the stored state is that of running its workload directly *)
 Theorem C12_single_producer : forall nrec l s,
+  args_stable [l] = true ->
   reach nrec [l] s -> fl s = Done -> forallb snd (hist s) = true ->
   wstore s = sync_apply (init_store nrec) (map (fun x => (0, x)) l).
 Proof. exact single_producer. Qed.
@@ -63,7 +88,7 @@ Print Assumptions C12_single_producer.
 Theorem C12_failure_does_not_block : forall nrec w s x r,
   reach nrec w s -> (fl s = Batch (x :: r) \/ fl s = Final (x :: r)) ->
   exists s', step_fn false CExec s = Some s' /\
-             applied s' = applied s ++ [(x, snd (apply_op (wstore s) (snd x)))] /\
+             applied s' = applied s ++ [(x, snd (apply_op (wstore s) (late_view (snd x))))] /\
              inflight (fl s') = r /\
              (forall y r', r = y :: r' -> exists s'', step_fn false CExec s' = Some s'' /\
                                                      map fst (applied s'') = map fst (applied s) ++ [x; y]).
@@ -128,7 +153,7 @@ Definition ex_work : list (list op) :=
 Example C12_example_complete_run :
   exists s, reach 2 ex_work s /\ fl s = Done /\ length (applied s) = 6 /\
             map snd (applied s) = [true; false; true; true; true; true] /\
-            length (saved (wstore s)) = 2 /\ forallb snd (hist s) = true.
+            length (saved (wstore s)) = 2 /\ forallb snd (hist s) = true /\ args_stable ex_work = true.
 Proof.
   eexists. split.
   - eapply (run_schedule_reach 2 ex_work false
@@ -141,7 +166,8 @@ Qed.
 (** a reachable state where the flusher is in the middle of a batch of storage calls, a failing one next,
     and both producers still have requests (hypotheses of failure_does_not_block / producers_never_blocked) *)
 Example C12_example_mid_batch :
-  exists s x y r, reach 2 ex_work s /\ fl s = Batch (x :: y :: r) /\ snd (apply_op (wstore s) (snd x)) = false /\
+  exists s x y r, reach 2 ex_work s /\ fl s = Batch (x :: y :: r) /\
+                  snd (apply_op (wstore s) (late_view (snd x))) = false /\
                   nth 0 (pending s) [] <> [] /\ nth 1 (pending s) [] <> [].
 Proof.
   eexists. eexists. eexists. eexists. split.
